@@ -257,5 +257,9 @@ def main(argv=None):
         return 2
     except Exception:
         traceback.print_exc()
+        if ctx.violations:
+            # the run was cut short by an unexpected exception, but it had already observed violations: report them
+            print("NOTE property=%s: run aborted by an unexpected exception after %d violation(s); reporting those" % (pid, len(ctx.violations)))
+            return ctx.finish()
         print("MACHINERY-FAILURE property=%s: unexpected exception" % pid)
         return 2
